@@ -196,6 +196,8 @@ macro_rules! frame_types {
         $m!("u8x2", [u8; 2]);
         $m!("I24x1", [I24; 1]);
         $m!("u32x4", [u32; 4]);
+        // wider than the 32 channels the crate documentation speaks of: [S; N] is a Frame for every N
+        $m!("i16x40", [i16; 40]);
     };
 }
 
@@ -212,7 +214,7 @@ fn run_any(rep: &mut Report, fname: &str, node: &Node, lens: &[Option<u64>], n_o
     out
 }
 
-const FNAMES: [&str; 6] = ["f64", "f32x2", "i16x3", "u8x2", "I24x1", "u32x4"];
+const FNAMES: [&str; 7] = ["f64", "f32x2", "i16x3", "u8x2", "I24x1", "u32x4", "i16x40"];
 
 fn tree_hash(fname: &str, node: &Node) -> u64 {
     vmon::hash_combine(vmon::hash_str(fname), vmon::hash_str(&node.encode()))
@@ -555,7 +557,7 @@ fn main() {
         let mut rng = Rng::derive(cli.seed, &[4, i]);
         let (node, nl) = random_bounded_tree(&mut rng, depth, 5);
         let lens: Vec<Option<u64>> = (0..nl).map(|_| if rng.chance(1, 3) { Some(rng.below(40)) } else { None }).collect();
-        let f = FNAMES[rng.usize_below(6)];
+        let f = FNAMES[rng.usize_below(7)];
         let n_out = 8 + rng.below(56);
         let resume = if rng.chance(1, 4) { Some((RESUME_KINDS[rng.usize_below(6)], 1 + rng.below(6))) } else { None };
         run_any(rep, f, &node, &lens, n_out, resume);
